@@ -512,6 +512,46 @@ func c20Run(c *mon.Ctx) {
 		}
 		if len(norms) > 1 {
 			c.Add("multi_normalisation_record_types", 1)
+			// "apply the normalization if all fields are present": a record carrying exactly the has_fields of
+			// entry i (and of no other entry) selects entry i; a record carrying none of them selects none
+			actionOf := func(body string) (string, bool) {
+				m, err := auparse.Parse(t, "audit(1.000:1): "+body)
+				if err != nil {
+					return "", false
+				}
+				e, err := aucoalesce.CoalesceMessages([]*auparse.AuditMessage{m})
+				if err != nil {
+					return "", false
+				}
+				return e.Summary.Action, true
+			}
+			allConditional := true
+			actions := map[string]int{}
+			for _, n := range norms {
+				actions[n.Action]++
+				if len(n.HasFields.Values) == 0 {
+					allConditional = false
+				}
+			}
+			for i, n := range norms {
+				if len(n.HasFields.Values) == 0 || n.Action == "" || actions[n.Action] > 1 {
+					continue
+				}
+				body := "pid=1 uid=0 auid=1000 ses=1 res=success"
+				for j, f := range n.HasFields.Values {
+					body += " " + f + "=w" + fmt.Sprint(j)
+				}
+				if got, ok := actionOf(body); ok && got != n.Action {
+					bad("normalisation-selection", "record type %s carrying exactly the has_fields %q of its normalisation #%d is given action %q, that normalisation's action is %q", name, n.HasFields.Values, i, got, n.Action)
+				}
+				ev.Add(1)
+				c.Add("conditional_normalisations_selected_by_their_fields", 1)
+			}
+			if allConditional {
+				if got, ok := actionOf("pid=1 uid=0 auid=1000 ses=1 res=success"); ok && got != "" && actions[got] > 0 {
+					bad("normalisation-selection", "record type %s carrying none of the has_fields of its normalisations is given action %q", name, got)
+				}
+			}
 		}
 	}
 	for name, n := range rawRec {
@@ -539,7 +579,7 @@ func min(a, b int) int {
 func init() {
 	register(&mon.CheckSpec{
 		ID: "C20", Level: "exploration", Exhaustive: true,
-		Rule: "EXHAUSTIVE enumeration at run time of: all 65536 record type codes (name -> number -> name in three letter cases, text marshalling, unique names, repeated and concurrent categorisation); both errno maps in both directions (aliases resolve to one number; cross-checked with x/sys/unix); every architecture name <-> code (unique, String(), the rule package's reverse table, linux/audit.h spot table, and through Build/ToCommandLine with = and !=); every (arch, syscall) entry (a name maps to one number, the rule package's reverse table, and a rule '-F arch=A -S name' sets exactly that bit and round-trips); every rule field / operator / comparison table entry (verif export hook) against linux/audit.h in both directions; every entry of normalizations.yaml (read from /repo, loaded with the exported loader and walked independently as a YAML node tree): record types resolve and print back identically, syscalls occur in at least one arch table, nothing listed twice, and every record type selects the same normalisation on repeated evaluation for every subset of its has_fields. distinct_nontrivial = distinct named table entries visited.",
+		Rule: "EXHAUSTIVE enumeration at run time of: all 65536 record type codes (name -> number -> name in three letter cases, text marshalling, unique names, repeated and concurrent categorisation); both errno maps in both directions (aliases resolve to one number; cross-checked with x/sys/unix); every architecture name <-> code (unique, String(), the rule package's reverse table, linux/audit.h spot table, and through Build/ToCommandLine with = and !=); every (arch, syscall) entry (a name maps to one number, the rule package's reverse table, and a rule '-F arch=A -S name' sets exactly that bit and round-trips); every rule field / operator / comparison table entry (verif export hook) against linux/audit.h in both directions; every entry of normalizations.yaml (read from /repo, loaded with the exported loader and walked independently as a YAML node tree): record types resolve and print back identically, syscalls occur in at least one arch table, nothing listed twice, every record type selects the same normalisation on repeated evaluation for every subset of its has_fields, and a record type with several conditional normalisations selects the one whose has_fields the record carries (none when it carries none). distinct_nontrivial = distinct named table entries visited.",
 		Assumptions: []string{
 			"the tables are read through the exported maps/functions and the verif export hook at run time, so the check sees what the build contains",
 			"normalizations.yaml is read from the repository tree that the harness is built against (it is embedded from the same file)",
